@@ -912,12 +912,24 @@ func (c *Ctx) ORD(rule string, entry ...string) []report.Obligation {
 				key := c.P.FuncID(f) + " :: range " + c.P.KeyTerm(l.rng.X, 3)
 				o := report.Obligation{Rule: rule, Key: key, Pos: c.P.InstrPos(l.rng), Path: r.Path(c.P, f), Detail: map[string]any{"loop_sig": c.loopSig(l)}}
 				tbl := c.tableOf(l)
-				if len(sens) > 0 && tbl != "" && c.firstMatchOnly(l) {
+				tbls := []string{tbl}
+				if pa, isParam := l.rng.X.(*ssa.Parameter); isParam && tbl != "" {
+					// a shared search helper: the tables are what its callers hand in
+					tbls = c.tablesPassedAs(f, pa)
+					tbl = strings.Join(tbls, ", ")
+				}
+				if len(sens) > 0 && tbl != "" && len(tbls) > 0 && c.firstMatchOnly(l) {
 					// first-match search over a rule table: at most one pattern matches a path when A1 holds
-					okA1 := false
-					for _, ao := range c.A1(rule+"-A1", tbl) {
-						if ao.Status == report.Discharged && strings.HasSuffix(ao.Key, ":: exclusive") {
-							okA1 = true
+					okA1 := true
+					for _, one := range tbls {
+						found := false
+						for _, ao := range c.A1(rule+"-A1", one) {
+							if ao.Status == report.Discharged && strings.HasSuffix(ao.Key, ":: exclusive") {
+								found = true
+							}
+						}
+						if !found {
+							okA1 = false
 						}
 					}
 					if okA1 {
@@ -949,9 +961,19 @@ func (c *Ctx) ORD(rule string, entry ...string) []report.Obligation {
 							}
 							sg = strings.Join(f, " ")
 						}
-						if !seenSig[sg] {
-							seenSig[sg] = true
-							sigs = append(sigs, sg)
+						// one entry per (argument type, kind of write): a justification covers an effect, not a list
+						parts := []string{sg}
+						if i := strings.Index(sg, ": "); i > 0 && strings.HasPrefix(sg, "a callee writes through") {
+							parts = nil
+							for _, k := range strings.Split(sg[i+2:], "; ") {
+								parts = append(parts, sg[:i+2]+k)
+							}
+						}
+						for _, p1 := range parts {
+							if !seenSig[p1] {
+								seenSig[p1] = true
+								sigs = append(sigs, p1)
+							}
 						}
 					}
 					sort.Strings(sigs)
@@ -1127,5 +1149,43 @@ func (c *Ctx) LoopSnapshot() map[string]LoopRef {
 			out[o.Key] = ref
 		}
 	}
+	return out
+}
+
+// tablesPassedAs: the package-level rule tables the callers of fn pass for parameter pa (nil if some caller passes
+// anything else).
+func (c *Ctx) tablesPassedAs(fn *ssa.Function, pa *ssa.Parameter) []string {
+	idx := -1
+	for i, p := range fn.Params {
+		if p == pa {
+			idx = i
+		}
+	}
+	if idx < 0 {
+		return nil
+	}
+	seen := map[string]bool{}
+	var out []string
+	for _, g := range c.P.Funcs {
+		for _, cs := range callSites(g, func(com *ssa.CallCommon) bool { return com.StaticCallee() == fn }) {
+			if idx >= len(cs.Common().Args) {
+				return nil
+			}
+			ld, ok := cs.Common().Args[idx].(*ssa.UnOp)
+			if !ok {
+				return nil
+			}
+			gl, ok := ld.X.(*ssa.Global)
+			if !ok {
+				return nil
+			}
+			name := c.P.Rel(gl.Pkg.Pkg) + "." + gl.Name()
+			if !seen[name] {
+				seen[name] = true
+				out = append(out, name)
+			}
+		}
+	}
+	sort.Strings(out)
 	return out
 }
